@@ -262,7 +262,8 @@ func c04CheckE2E(c c04E2ECase) engine.Result {
 					for i := 0; i < extra; i++ {
 						w.Put(8, 0xFF)
 					}
-					w.Bytes([]byte{0xDE, 0xAD, 0xBE, 0xEF})
+					// payload lengths 0 (the slice ends exactly on the last header byte), 1 and 4
+					w.Bytes([]byte{0xDE, 0xAD, 0xBE, 0xEF}[:[]int{4, 0, 1}[(int(sid)+extra/2+int(c.V))%3]])
 					in := w.Out()
 					keep := append([]byte{}, in...)
 					res.Evals++
@@ -326,7 +327,7 @@ func init() {
 			},
 			&engine.Enum[c04E2ECase]{
 				Name: "end-to-end",
-				Rule: "PCR/OPCR set on adaptation fields of length {183,20,13,7} (PCR only, OPCR only, both) read back through method and function-style accessors and compared with the reference packet; PTS / PTS+DTS in reference-built PES headers for 3 stream ids with and without header stuffing; values: sparse(<=2 bits) bases x ext {0,1,255,256,299} and sparse(<=2 bits) PTS",
+				Rule: "PCR/OPCR set on adaptation fields of length {183,20,13,7} (PCR only, OPCR only, both) read back through method and function-style accessors and compared with the reference packet; PTS / PTS+DTS in reference-built PES headers for 3 stream ids with and without header stuffing and with 0, 1 or 4 bytes following the header; values: sparse(<=2 bits) bases x ext {0,1,255,256,299} and sparse(<=2 bits) PTS",
 				Gen: func(r *engine.Run, emit func(c04E2ECase)) {
 					for _, b := range sparse(33, 2, 0) {
 						for _, ext := range []uint64{0, 1, 255, 256, 299} {
